@@ -220,7 +220,7 @@ impl Monitor for C17 {
                 let mut b = b.borrow_mut();
                 spec::v2::v2_case(name, idx, seed, &mut b);
                 rec.case(spec::rng::hash_bytes(&b[..b.len().min(64)]) ^ b.len() as u64, b.len() >= 12 && b[..12] == spec::v2::SIG);
-                follow_through(&b, "any-input", rec);
+                spec::sib::run_v2(&b, idx, 3, |x| follow_through(x, "any-input", rec));
             });
             return;
         }
